@@ -23,6 +23,9 @@ ATOMS = {
     "I(f)": ("cat", "f", "treatment", None), "I(g)": ("cat", "g", "treatment", None),
     "I(o)": ("cat", "o", "treatment", None), "I(c)": ("cat", "c", "treatment", None),
     "C(C(f))": ("cat", "f", "treatment", None), "C(C(h), Sum)": ("cat", "h", "sum", None),
+    # an UNORDERED Categorical whose declared categories are not sorted, inside C / T / S: levels are sorted
+    "C(c)": ("cat", "c", "treatment", None), "T(c)": ("cat", "c", "treatment", None), "S(c)": ("cat", "c", "sum", None),
+    "C(c, Sum)": ("cat", "c", "sum", None),
 }
 NUM_ATOMS = [a for a, v in ATOMS.items() if v[0] in ("num", "expr") and a != "I(w * 2)"]
 TREAT_ATOMS = [a for a, v in ATOMS.items() if v[0] == "cat" and v[2] == "treatment" and a != "k"]
